@@ -69,7 +69,7 @@ def judge(case, d, model):
         if 'X0' in d and d.get('X2') != d.get('X0'):
             bad.append(('exec-differs-after-scan', 'execution differs after the text round trip: %s vs %s' % (d.get('X0'), d.get('X2'))))
     # tie: model printer / scanner against the implementation
-    if 'SKIPPED' not in model:
+    if 'SKIPPED' not in model and 'SKIPPED' not in d:
         m0 = K.text_of(model, 'T0')
         if model.get('DRIVER-ERROR'):
             bad.append(('tie:driver', 'model driver error'))
@@ -82,8 +82,8 @@ def judge(case, d, model):
     return bad, info
 
 
-def run_cases(exes, cases):
-    r1, r2, rm = K.run_all((exes[0], exes[0], exes[2]), cases)
+def run_cases(exes, cases, which=('raw', 'model')):
+    r1, r2, rm = K.run_all((exes[0], exes[0], exes[2]), cases, which=which)
     return r1, rm
 
 
@@ -132,11 +132,11 @@ def run(chk):
         if nfail > 8:
             continue
         cls, what = bad[0]
-        if sig is None and not cls.startswith('tie:') and len(case) < 60000:
+        if sig is None and not cls.startswith('tie:') and len(case) < 60000 and nfail <= 2:
             def fails(c):
-                x1, xm = run_cases(exes, [c])
+                x1, xm = run_cases(exes, [c], which=('raw',))
                 return any(s == cls for s, _ in judge(c, x1[0], xm[0])[0])
-            small = K.shrink_case(case, fails, max_steps=80)
+            small = K.shrink_case(case, fails, max_steps=60)
         else:
             small = case
         x1, xm = run_cases(exes, [small])
